@@ -149,7 +149,7 @@ def main():
         l2 = sorted(rnd.sample(range(1, 14), rnd.randint(0, 8)))
         r3 = sorted(rnd.sample(range(1, 14), rnd.randint(0, 8)))
         hmax = rnd.randint(0, 8)
-        g.append('#guard Gen2.SuffixFilter_est_hamming_dist_lower_bound 4 %s %s %d %d %d 1 = %d' % (
+        g.append('#guard Gen2.SuffixFilter_est_hamming_dist_lower_bound 4 (%s : List Nat) %s %d %d %d 1 = %d' % (
             lit(l2), lit(r3), len(l2), len(r3), hmax,
             sf._est_hamming_dist_lower_bound(l2, r3, len(l2), len(r3), hmax, 1)))
         lp, rp = rnd.randint(0, 3), rnd.randint(0, 3)
